@@ -83,6 +83,13 @@ func (f *c01T) Write(ctx context.Context, m jsonrpc2.Message) error {
 	}
 }
 
+func (f *c01T) SessionID() string { return "" }
+
+// c01Transport hands out the scripted connection (so that it can be wrapped like any transport).
+type c01Transport struct{ conn *c01T }
+
+func (t c01Transport) Connect(context.Context) (Connection, error) { return t.conn, nil }
+
 func (f *c01T) Close() error {
 	if !f.once {
 		f.once = true
@@ -107,14 +114,21 @@ type c01Opts struct {
 	// badParams: one more caller whose parameters cannot be marshalled (NaN); its call fails
 	// without anything being written, exactly once, and leaves nothing behind
 	badParams bool
+	// logged: the connection is wrapped in the SDK's LoggingTransport (a pass-through that must
+	// hand every result and error of the wrapped connection on unchanged)
+	logged bool
 }
 
 func c01Scenario(o c01Opts) vs.Verdict {
 	w := &c01World{answered: map[string]string{}, writeFault: map[string]string{}, cancelled: map[int]bool{}}
 	ft := &c01T{w: w, outbox: make(chan *jsonrpc2.Request, 8), inbox: make(chan jsonrpc2.Message, 16), rerr: make(chan error, 1), closed: make(chan struct{}), faults: o.faults}
 	var internalErr string
+	var rwc Connection = ft
+	if o.logged {
+		rwc, _ = (&LoggingTransport{Transport: c01Transport{ft}, Writer: io.Discard}).Connect(context.Background())
+	}
 	c := jsonrpc2.NewConnection(context.Background(), jsonrpc2.ConnectionConfig{
-		Reader: ft, Writer: ft, Closer: ft,
+		Reader: rwc, Writer: rwc, Closer: rwc,
 		Bind: func(*jsonrpc2.Connection) jsonrpc2.Handler {
 			return jsonrpc2.HandlerFunc(func(ctx context.Context, r *jsonrpc2.Request) (any, error) { return nil, jsonrpc2.ErrNotHandled })
 		},
@@ -372,6 +386,7 @@ func TestVerifC01(t *testing.T) {
 			mk(p+"k2-write-faults", b(2, 3), c01Opts{k: 2, faults: true, readEnd: true, viaMCP: via}, vs.Options{}),
 			mk(p+"k2-cancel", b(2, 3), c01Opts{k: 2, cancel: true, readEnd: true, viaMCP: via}, vs.Options{}),
 			mk(p+"k2-close", b(2, 3), c01Opts{k: 2, closer: true, readEnd: true, viaMCP: via}, vs.Options{}),
+			mk(p+"k2-write-faults/logging-transport", b(2, 3), c01Opts{k: 2, faults: true, readEnd: true, viaMCP: via, logged: true}, vs.Options{}),
 			mk(p+"k1-unmarshalable-params", b(2, 3), c01Opts{k: 1, badParams: true, closer: true, readEnd: true, viaMCP: via}, vs.Options{}),
 			mk(p+"k3-all", b(1, 2), c01Opts{k: 3, closer: true, cancel: true, faults: true, readEnd: true, viaMCP: via}, vs.Options{}),
 		)
